@@ -38,8 +38,9 @@ class Chooser:
     def __init__(self, prefix=(), labels=None, max_dev=None):
         self.prefix = list(prefix)
         self.prefix_labels = labels
-        self.trace = []  # (choice, n, label, weight_of_choice or None, weights)
+        self.trace = []  # (choice, n, label, weights)
         self.max_dev = max_dev
+        self.forced = []  # [(label_prefix, value)]: answers dictated by the harness (no branching)
 
     # -- choice points -------------------------------------------------
     def choose(self, n_or_weights, label=""):
@@ -51,6 +52,16 @@ class Chooser:
             n = len(weights)
         if n <= 0:
             raise ReplayError(f"empty choice at {label!r}")
+        if self.forced and label.startswith(self.forced[0][0]):
+            _, val = self.forced.pop(0)
+            if not 0 <= val < n:
+                raise ReplayError(f"forced answer {val} out of range at {label!r}")
+            # recorded as a one-way point so that prefixes stay aligned
+            i = len(self.trace)
+            if i < len(self.prefix) and self.prefix[i] != 0:
+                raise ReplayError(f"replay mismatch at forced point {label!r}")
+            self.trace.append((0, 1, label + "!", None))
+            return val
         i = len(self.trace)
         if i < len(self.prefix):
             c = self.prefix[i]
@@ -109,10 +120,14 @@ class Chooser:
                 p *= float(w[c]) / float(sum(float(x) for x in w))
         return p
 
-    def deviations(self, upto=None):
+    def deviations(self, upto=None, free=()):
+        """Number of non-default choices; labels starting with one of ``free``
+        do not count (they are explored exhaustively)."""
         tr = self.trace if upto is None else self.trace[:upto]
         d = 0
-        for c, n, _, w in tr:
+        for c, n, lab, w in tr:
+            if free and lab.startswith(tuple(free)):
+                continue
             first = 0
             if w is not None:
                 while first < n and not w[first] > 0:
@@ -122,7 +137,7 @@ class Chooser:
         return d
 
 
-def explore(fn, max_dev=None, prefix=(), limit=None):
+def explore(fn, max_dev=None, prefix=(), limit=None, free=()):
     """Enumerate all executions of ``fn``.
 
     Yields ``(chooser, result)``.  ``max_dev`` bounds the number of
@@ -148,10 +163,10 @@ def explore(fn, max_dev=None, prefix=(), limit=None):
         # first, deep last → deep popped first).
         tr = ch.trace
         for i in range(len(pre), len(tr)):
-            c, n, _, w = tr[i]
-            if max_dev is not None:
+            c, n, lab, w = tr[i]
+            if max_dev is not None and not (free and lab.startswith(tuple(free))):
                 # cost before i plus one for deviating here
-                if ch.deviations(upto=i) + 1 > max_dev:
+                if ch.deviations(upto=i, free=free) + 1 > max_dev:
                     continue
             alts = []
             for alt in range(c + 1, n):
